@@ -166,6 +166,34 @@ inline void dumpGenerated(const cola::CompoundConstraints &ccs, vpsc::Rectangles
     for (auto *v : vars) delete v;
 }
 
+// makeFeasible() does not use generateSeparationConstraints but a second encoding of every
+// constraint type: getCurrSubConstraintAlternatives(vs[2]). Dump what it yields, sub-constraint by
+// sub-constraint, with live variables of both dimensions (as in makeFeasible).
+inline void dumpAlternatives(const cola::CompoundConstraints &ccs, vpsc::Rectangles &rs) {
+    vpsc::Variables vs[2];
+    for (int dim = 0; dim < 2; ++dim) {
+        for (size_t i = 0; i < rs.size(); ++i) vs[dim].push_back(new vpsc::Variable((int) i, rs[i]->getCentreD(dim), 1));
+        for (auto *c : ccs) c->generateVariables((vpsc::Dim) dim, vs[dim]);
+    }
+    for (size_t i = 0; i < ccs.size(); ++i) {
+        cola::CompoundConstraint *cc = ccs[i];
+        cc->markAllSubConstraintsAsInactive();
+        int guard = 0;
+        try {
+            while (cc->subConstraintsRemaining() && guard++ < 1000) {
+                cola::SubConstraintAlternatives alts = cc->getCurrSubConstraintAlternatives(vs);
+                if (alts.empty()) continue;
+                for (auto &a : alts)
+                    printf("alt %zu %d %d %d %s %d\n", i, (int) a.dim, a.constraint.left->id, a.constraint.right->id, H(a.constraint.gap), (int) a.constraint.equality);
+                cc->markCurrSubConstraintAsActive(true);
+            }
+        } catch (cola::InvalidVariableIndexException &e) { printf("altexc %zu invalidindex %u\n", i, e.index);
+        } catch (cola::InvalidConstraint &e) { printf("altexc %zu invalidconstraint\n", i); }
+    }
+    printf("altdone 1\n");
+    for (int dim = 0; dim < 2; ++dim) for (auto *v : vs[dim]) delete v;
+}
+
 // ------------------------------------------------------------------------------------------
 // Scene generation
 
